@@ -16,6 +16,8 @@ thread_local! {
     /// joined file of the "outer" kind for the case being checked (kept out of the many call sites of `execute`)
     static OUTER_JOINED: std::cell::RefCell<Vec<u8>> = const { std::cell::RefCell::new(Vec::new()) };
     static PIPE_INPUTS: std::cell::Cell<bool> = const { std::cell::Cell::new(false) };
+    /// the engine given to FileExecutor has loaded its joined table once already (the joined file is then read twice)
+    static PRELOAD_JOIN: std::cell::Cell<bool> = const { std::cell::Cell::new(false) };
     static LIMIT: std::cell::Cell<Option<usize>> = const { std::cell::Cell::new(None) };
     static AGAIN: std::cell::Cell<Option<usize>> = const { std::cell::Cell::new(None) };
 }
@@ -150,6 +152,7 @@ impl C12 {
             s
         };
         spec.pipe_inputs = pipe;
+        spec.preload_join = (kind == "join" || kind == "outer") && PRELOAD_JOIN.with(|p| p.get());
         if let Some(i) = AGAIN.with(|a| a.get()) {
             if kind == "input" || kind == "count" {
                 if let Some(entry) = spec.files.get(i).cloned() {
@@ -184,7 +187,7 @@ impl Property for C12 {
     }
 
     fn rule(&self) -> &'static str {
-        "case = (1..4 files of generated byte content incl. CRLF, empty lines, lines over several 8 KiB refills, missing final newline, empty files; statement SELECT input / COUNT(*) / join whose joined file is the file under test; read script with short reads and EINTR; read granularity). Variants: transparent (faults must be invisible), concat (k newline-terminated files vs their concatenation), badbyte (the undecodable line's position is swept over EVERY line of every file of the case: fault enumeration per scenario), eio (EIO swept over every read of the run). Non-trivial iff >=2 lines and (>=2 files or >=1 fault fired inside the data); distinct by schedule signature + content hash."
+        "case = (1..4 files of generated byte content incl. CRLF, empty lines, lines over several 8 KiB refills, missing final newline, empty files; statement SELECT input / COUNT(*) / join whose joined file is the file under test (rows and, through [DISTINCT] COUNT(*) over the join, their number; for a third of the cases on an engine that has loaded its joined table once before); read script with short reads and EINTR; read granularity). Variants: transparent (faults must be invisible), concat (k newline-terminated files vs their concatenation), badbyte (the undecodable line's position is swept over EVERY line of every file of the case: fault enumeration per scenario), eio (EIO swept over every read of the run). Non-trivial iff >=2 lines and (>=2 files or >=1 fault fired inside the data); distinct by schedule signature + content hash."
     }
 
     fn assumptions(&self) -> Vec<String> {
@@ -294,6 +297,9 @@ impl Property for C12 {
             "bad_style": rng.below(3),
             // the inputs are pipes / FIFOs (what `--stdin` gives): no size in the metadata, not seekable
             "pipe": rng.chance(1, 8),
+            "preload_join": rng.chance(1, 3),
+            // join kind: the joined lines are also counted through an aggregate over the join (0 no, 1 COUNT, 2 DISTINCT COUNT)
+            "join_count": if kind == "join" { rng.below(3) } else { 0 },
             // input kind only: SELECT input ... LIMIT n (the lines after the n-th are legitimately not presented)
             "limit": if kind == "input" && rng.chance(1, 4) { json!(rng.range(1, 12)) } else { J::Null },
             // one of the files is named a second time on the command line (f g f): its lines are presented again
@@ -309,6 +315,8 @@ impl Property for C12 {
         bytes_array_field(case, "files", &mut out);
         bytes_field(case, "outer_joined", &mut out);
         bool_field(case, "pipe", false, &mut out);
+        bool_field(case, "preload_join", false, &mut out);
+        num_field(case, "join_count", 0, &mut out);
         set_field(case, "limit", J::Null, &mut out);
         set_field(case, "again", J::Null, &mut out);
         steps_field(case, "steps", &mut out);
@@ -326,10 +334,12 @@ impl Property for C12 {
         let outer_joined = jbytes(case, "outer_joined");
         OUTER_JOINED.with(|j| *j.borrow_mut() = outer_joined.clone());
         PIPE_INPUTS.with(|p| p.set(jbool(case, "pipe")));
+        PRELOAD_JOIN.with(|p| p.set(jbool(case, "preload_join")));
         let limit: Option<usize> = if kind == "input" { case.get("limit").and_then(|x| x.as_u64()).map(|x| x as usize) } else { None };
         LIMIT.with(|l| l.set(limit));
         out.probe("with_limit", limit.is_some() as u64);
         out.probe("inputs_are_pipes", jbool(case, "pipe") as u64);
+        out.probe("joined_table_loaded_before_the_run_too", (jbool(case, "preload_join") && (kind == "join" || kind == "outer")) as u64);
         let mut files = jbytes_list(case, "files");
         if files.is_empty() {
             out.invalid = Some("no files".to_owned());
@@ -422,6 +432,27 @@ impl Property for C12 {
         check_full(&mut out, &base, "short reads/EINTR must be transparent");
         if out.violation.is_some() {
             return out;
+        }
+        let join_count = jusize(case, "join_count", 0);
+        if kind == "join" && join_count > 0 && n > 0 {
+            // every joined line reaches an aggregate over the join exactly once as well: the main file holds each distinct
+            // value once, so the join has as many rows as the joined file has lines
+            let (main, _) = join_plan(&model(&files[..1]));
+            let stmt = format!("SELECT {}COUNT(*) AS c FROM raw INNER JOIN j::'/simfs/joined.log' ON raw.x = j.y", if join_count == 2 { "DISTINCT " } else { "" });
+            let mut spec = batch_spec(DEFS, &stmt, &[main], Some(&files[0]));
+            spec.steps = steps.clone();
+            spec.read_mode = read_mode.clone();
+            spec.preload_join = PRELOAD_JOIN.with(|p| p.get());
+            let res = run(&mut out, "aggregate over the join", &spec, false);
+            if !usable(&mut out, "c12", &res, &features) {
+                return out;
+            }
+            let recs = records(&res);
+            if res.status != Status::Ok || count_value(&recs) != Some(n as u64) {
+                out.violate("c12.wrong_lines", format!("{}: {} {} but the joined file holds {} lines, each with a partner", stmt, status_label(&res.status), show(&recs), n), features.clone());
+                return out;
+            }
+            out.probe("joined_lines_counted_through_an_aggregate", 1);
         }
         let fired_inside = out.faults.get("short_read").cloned().unwrap_or(0) + out.faults.get("eintr").cloned().unwrap_or(0) > 0;
         if n >= 2 && (files.len() >= 2 || fired_inside) {
